@@ -6,3 +6,4 @@ cd "$(dirname "$0")"
 ./audit_all.sh
 ./seed_all.sh seeded
 ./seed_all.sh seeded/round2
+./seed_all.sh seeded/round3
